@@ -280,6 +280,10 @@ func DrawStep(t *rapid.T, r *Runner, w *world.World, o GenOpts) (Step, bool) {
 		if !o.WrongResumes {
 			return Step{}, false
 		}
+		// one resume of a finished session is enough
+		if n := len(r.Sprints); n >= 2 && r.Sprints[n-1].Err != nil {
+			return Step{}, false
+		}
 		kinds = append(kinds, "msg", "run_expiration", "wait_timeout", "dial")
 	}
 	kind := rapid.SampledFrom(kinds).Draw(t, "resumekind")
